@@ -116,6 +116,11 @@ def _faults(pkt, hk):
         yield ("key-bit", i), ct, sig, bytes(b)
     yield ("key-none", 0), ct, sig, None
     yield ("key-empty", 0), ct, sig, b""
+    # two faults at once: no key to verify with AND a shortened / absent signature (nothing is left to compare: still no plaintext)
+    for k in range(len(sig)):
+        yield ("key-none+sig-trunc", k), ct, sig[:k], None
+        yield ("key-empty+sig-trunc", k), ct, sig[:k], b""
+    yield ("key-none+ct-bit", 0), bytes([ct[0] ^ 1]) + ct[1:], b"", None
 
 
 def check_case(case, ctx):
@@ -223,6 +228,9 @@ def run_shard(shard, ctx):
             if ctx.out_of_time():
                 break
             ln = rng.choice([rng.randrange(0, 81), rng.randrange(0, 81), rng.randrange(0, 5000), rng.randrange(0, 65536)])
+            if rng.random() < 0.03 or i == 0:
+                # downloads and screenshots: around and beyond 64 KiB, where a slice-wise cipher would cut
+                ln = rng.choice([65519, 65520, 65535, 65536, 65537, 0x1FFF0, 0x20005, 0x30010])
             check_case({"op": "packet", "pt": rng.randbytes(ln), "aes": rng.randbytes(16), "hmac": rng.randbytes(16),
                         "iv": None if rng.random() < 0.4 else rng.randbytes(16), "faults": False}, ctx)
     else:
